@@ -2,17 +2,21 @@
 //
 // Child module of libwild::subprocess (feature "fork").  The libc calls made by
 // wait_for_child_done are linked against contracts/C17/stubs.c (-Z c-ffi --c-lib), which lets the
-// OS return anything: fread delivers the success byte or not, waitpid stores ANY status word or
-// fails.  The wait-status macros are specified here from POSIX / glibc <bits/waitstatus.h>, not
-// taken from the libc crate, whose WIFEXITED/WEXITSTATUS/... are executed as part of the code
-// under verification.
+// OS return anything: fread delivers the success byte or not; each waitpid call (the code may
+// retry) stores ANY status word or fails with ANY errno.  The wait-status macros are specified
+// here from POSIX / glibc <bits/waitstatus.h>, not taken from the libc crate, whose
+// WIFEXITED/WEXITSTATUS/... are executed as part of the code under verification.
 use super::*;
+
+const MAX_CALLS: usize = 4;
+const EINTR: i32 = 4;
 
 unsafe extern "C" {
     static mut verif_fread_result: c_int;
-    static mut verif_wait_status: c_int;
-    static mut verif_waitpid_result: c_int;
-    static mut verif_waitpid_called: c_int;
+    static mut verif_wp_ret: [c_int; MAX_CALLS];
+    static mut verif_wp_status: [c_int; MAX_CALLS];
+    static mut verif_wp_errno: [c_int; MAX_CALLS];
+    static mut verif_wp_calls: c_int;
 }
 
 // POSIX wait status decoding (glibc bits/waitstatus.h)
@@ -26,18 +30,36 @@ fn spec_wifsignaled(s: i32) -> bool {
     (((s & 0x7f) + 1) as i8 >> 1) > 0
 }
 
-fn run(byte_arrives: bool, status: i32, waitpid_ret: i32) -> (i32, bool) {
+struct Os {
+    byte: bool,
+    ret: [i32; MAX_CALLS],
+    status: [i32; MAX_CALLS],
+    errno: [i32; MAX_CALLS],
+}
+
+fn any_os() -> Os {
+    let os = Os { byte: kani::any(), ret: kani::any(), status: kani::any(), errno: kani::any() };
+    // a retry loop must terminate: the kernel does not interrupt the wait more than twice in a row
+    kani::assume(!(os.ret[2] < 0 && os.errno[2] == EINTR));
+    kani::assume(!(os.ret[3] < 0 && os.errno[3] == EINTR));
+    os
+}
+
+// returns (exit code, number of waitpid calls made)
+fn run(os: &Os) -> (i32, usize) {
     unsafe {
-        verif_fread_result = if byte_arrives { 1 } else { 0 };
-        verif_wait_status = status;
-        verif_waitpid_result = waitpid_ret;
-        verif_waitpid_called = 0;
+        verif_fread_result = if os.byte { 1 } else { 0 };
+        verif_wp_ret = os.ret;
+        verif_wp_status = os.status;
+        verif_wp_errno = os.errno;
+        verif_wp_calls = 0;
     }
     let fds: [c_int; 2] = [kani::any(), kani::any()];
     let pid: pid_t = kani::any();
     kani::assume(pid > 0);
     let code = wait_for_child_done(&fds, pid);
-    (code, unsafe { verif_waitpid_called } != 0)
+    let calls = unsafe { verif_wp_calls } as usize;
+    (code, calls)
 }
 
 // The property: "status 0 only if the output file was completely written ... non-zero if the
@@ -45,52 +67,85 @@ fn run(byte_arrives: bool, status: i32, waitpid_ret: i32) -> (i32, bool) {
 // Linker::run returned Ok (output written and unmapped); a worker that exits normally with code 0
 // without sending the byte did so deliberately (it never reaches exit(0) on an error path).
 #[kani::proof]
+#[kani::unwind(6)]
 fn c17_zero_only_after_success_byte_or_clean_exit() {
-    let byte_arrives: bool = kani::any();
-    let status: i32 = kani::any();
-    let waitpid_ret: i32 = kani::any();
-    let (code, _) = run(byte_arrives, status, waitpid_ret);
-    if code == 0 {
+    let os = any_os();
+    let (code, calls) = run(&os);
+    kani::assume(calls <= MAX_CALLS);
+    if code & 0xff == 0 {
+        let mut clean_exit_seen = false;
+        let mut i = 0;
+        while i < MAX_CALLS {
+            if i < calls && os.ret[i] >= 0 && spec_wifexited(os.status[i]) && spec_wexitstatus(os.status[i]) == 0 {
+                clean_exit_seen = true;
+            }
+            i += 1;
+        }
         assert!(
-            byte_arrives || (waitpid_ret >= 0 && spec_wifexited(status) && spec_wexitstatus(status) == 0),
-            "exit status 0 although the worker neither reported success nor exited cleanly"
+            os.byte || clean_exit_seen,
+            "exit status 0 although the worker neither reported success nor was seen to exit cleanly"
         );
     }
 }
 
 #[kani::proof]
+#[kani::unwind(6)]
 fn c17_killed_by_any_signal_is_nonzero() {
-    let status: i32 = kani::any();
-    kani::assume(spec_wifsignaled(status)); // SIGKILL, SIGSEGV, SIGABRT (panic=abort, OOM killer) ...
-    let (code, waited) = run(false, status, kani::any());
-    assert!(waited, "the worker must be reaped when no success byte arrives");
-    assert!(code != 0, "worker killed by a signal but the parent would exit 0");
-    // the value is later passed to std::process::exit: only the low 8 bits reach the OS
-    assert!(code & 0xff != 0, "exit code is 0 modulo 256");
+    let mut os = any_os();
+    os.byte = false;
+    let (code, calls) = run(&os);
+    assert!(calls >= 1, "the worker must be reaped when no success byte arrives");
+    kani::assume(calls <= MAX_CALLS);
+    let last = calls - 1;
+    // the wait that finally succeeded says: killed by a signal (SIGKILL/OOM, SIGSEGV, SIGABRT ...)
+    if os.ret[last] >= 0 && spec_wifsignaled(os.status[last]) {
+        // the value is later passed to std::process::exit: only the low 8 bits reach the OS
+        assert!(code & 0xff != 0, "worker killed by a signal but the parent would exit 0");
+    }
 }
 
 #[kani::proof]
+#[kani::unwind(6)]
 fn c17_worker_exit_code_is_propagated() {
-    let status: i32 = kani::any();
-    kani::assume(spec_wifexited(status));
-    let (code, _) = run(false, status, 0);
-    assert!(code == spec_wexitstatus(status), "worker's exit code not propagated");
-    assert!((code == 0) == (spec_wexitstatus(status) == 0));
+    let mut os = any_os();
+    os.byte = false;
+    let (code, calls) = run(&os);
+    kani::assume(calls >= 1 && calls <= MAX_CALLS);
+    let last = calls - 1;
+    if os.ret[last] >= 0 && spec_wifexited(os.status[last]) {
+        assert!(code == spec_wexitstatus(os.status[last]), "worker's exit code not propagated");
+    }
 }
 
 #[kani::proof]
+#[kani::unwind(6)]
 fn c17_success_byte_means_zero_without_waiting() {
     // the parent may exit 0 as soon as the byte arrives (the worker shuts down in the background)
-    let (code, waited) = run(true, kani::any(), kani::any());
-    assert!(code == 0 && !waited);
+    let mut os = any_os();
+    os.byte = true;
+    let (code, calls) = run(&os);
+    assert!(code == 0 && calls == 0);
 }
 
 #[kani::proof]
+#[kani::unwind(6)]
 fn c17_waitpid_failure_is_nonzero() {
-    let w: i32 = kani::any();
-    kani::assume(w < 0);
-    let (code, _) = run(false, kani::any(), w);
-    assert!(code & 0xff != 0, "waitpid failed and no byte arrived, but the parent would exit 0");
+    // every wait fails (ECHILD because SIGCHLD is ignored, EINVAL, ...): the worker's fate is unknown
+    let mut os = any_os();
+    os.byte = false;
+    let (code, calls) = run(&os);
+    kani::assume(calls <= MAX_CALLS);
+    let mut all_failed = true;
+    let mut i = 0;
+    while i < MAX_CALLS {
+        if i < calls && os.ret[i] >= 0 {
+            all_failed = false;
+        }
+        i += 1;
+    }
+    if all_failed {
+        assert!(code & 0xff != 0, "waitpid failed and no byte arrived, but the parent would exit 0");
+    }
 }
 
 fn exit_stub(code: i32) -> ! {
@@ -111,13 +166,17 @@ fn c17_report_error_and_exit_is_nonzero() {
 
 // vacuity canaries (must fail)
 #[kani::proof]
+#[kani::unwind(6)]
 fn c17_canary_zero_reachable() {
-    let (code, _) = run(kani::any(), kani::any(), kani::any());
+    let os = any_os();
+    let (code, _) = run(&os);
     assert!(code != 0, "canary: must fail");
 }
 
 #[kani::proof]
+#[kani::unwind(6)]
 fn c17_canary_nonzero_reachable() {
-    let (code, _) = run(kani::any(), kani::any(), kani::any());
+    let os = any_os();
+    let (code, _) = run(&os);
     assert!(code == 0, "canary: must fail");
 }
